@@ -32,7 +32,7 @@ def sim_kwargs(spec):
     return kw
 
 
-def run_dump(spec, order, native=False):
+def run_dump(spec, order, native=False, share_ids=False):
     import warnings
     I.install()
     if native:
@@ -40,7 +40,7 @@ def run_dump(spec, order, native=False):
     else:
         I.set_order(order)
     try:
-        m = B.build(spec)
+        m = B.build(spec, share_ids=share_ids)
         with warnings.catch_warnings():
             warnings.simplefilter("ignore")
             try:
@@ -224,6 +224,11 @@ def run_case(case):
     res.count("C09.native_hash_runs")
     compare(res, base, d, "C09/depends-on-object-addresses", "native address hashes after allocating garbage")
     del junk
+    # (b') the same model with ID strings shared between the objects and the places that refer to
+    # them (main_workplace_id, fixed-ID lists) instead of equal-but-distinct string objects
+    m, d = run_dump(spec, I.default_order(spec), share_ids=True)
+    res.count("C09.shared_id_string_runs")
+    compare(res, base, d, "C09/depends-on-id-string-identity", "ID strings shared instead of equal-but-distinct objects")
     # (d) simulate() called again on the same object
     I.set_order(I.default_order(spec))
     with warnings.catch_warnings():
